@@ -149,6 +149,12 @@ Definition gbdt_init (t : task_type) (m : option metric) : option metric :=
 Inductive gop :=
 | OTune (tune_ok : bool)        (* tune(); the subclass' _tune returns (true) or raises (false) *)
 | OPredict | OSave | OLoad.
+(* RErr: the call raises.  ROk: the is_fitted guard lets the call through; what the
+   call does after the guard (the subclass' _predict and its shape asserts,
+   os.makedirs(dirname(path)) and model.save_model for save, _load) is NOT modelled --
+   in the harness it is a trivial stub with a path that has a directory part.  E.g.
+   save("model.bin") on a fitted model raises FileNotFoundError from os.makedirs(''):
+   that is outside the model and outside the property ("before tuning => raises"). *)
 Inductive gres := ROk | RErr.
 
 Definition gstep (fitted : bool) (o : gop) : bool * gres :=
@@ -170,6 +176,10 @@ Fixpoint grun (fitted : bool) (ops : list gop) : list (gres * bool) :=
 Definition qsum (l : list Q) : Q := fold_right Qplus 0%Q l.
 Definition qmean (l : list Q) : Q := (qsum l / inject_Z (Z.of_nat (length l)))%Q.
 Definition qsub2 (a b : list Q) : list Q := map (fun p => (fst p - snd p)%Q) (combine a b).
+
+(* None below = outside the model (vectors of different lengths, which torch would
+   broadcast, or empty vectors, for which torch returns NaN) -- NOT "the code raises";
+   the harness generates equal non-zero lengths only. *)
 
 (* Metric.RMSE: (pred - target).square().mean().sqrt(); the model stops before sqrt *)
 Definition mse (target pred : list Q) : option Q :=
